@@ -19,6 +19,12 @@ package api
 //@ ghost func IsCheck(c *Context) bool { return c.mode == ContextCheckTx }
 //@ ghost func IsSim(c *Context) bool { return c.mode == ContextSimulateTx }
 //@ ghost func IsInit(c *Context) bool { return c.mode == ContextInitChain }
+//@ ghost func IsDeliver(c *Context) bool { return c.mode == ContextDeliverTx }
+
+//@ func Context.Mode
+//@   props C01 C08
+//@   modifies nothing
+//@   ensures result == c.mode
 
 //@ func Context.IsCheckOnly
 //@   props C08 C09
